@@ -5,7 +5,6 @@ import (
 	"encoding/gob"
 	"encoding/json"
 	"fmt"
-	"go/token"
 	"reflect"
 	"sort"
 	"strings"
@@ -363,6 +362,17 @@ func TestC06(t *testing.T) {
 		dc := c06Case{Pkgs: pkgDirs(p), Sources: src, Mode: "drivers"}
 		if extN < extBudget {
 			extN++
+			if rapid.IntRange(0, 9).Draw(rt, "twinPackages") < 4 {
+				// two packages with byte-identical sources (annotations of every kind at the same
+				// offsets) and a user of both: under go vet each package has positions of its own
+				dc.Pkgs = append(append([]string{}, dc.Pkgs...), "twa/m", "twb/m", "twuse")
+				dc.Sources = map[string]string{}
+				for k, v := range src {
+					dc.Sources[k] = v
+				}
+				dc.Sources["twa/m/m.go"], dc.Sources["twb/m/m.go"], dc.Sources["twuse/u.go"] = c06TwinSrc, c06TwinSrc, c06TwinUse
+				ev.Class(id, "relation drivers with two byte-identical annotated packages")
+			}
 			if dc.ScanTests = rapid.IntRange(0, 9).Draw(rt, "driversScanTests") < 3; dc.ScanTests {
 				ev.Class(id, "relation drivers with scan-tests on")
 			}
@@ -382,40 +392,84 @@ func TestC06(t *testing.T) {
 
 // ---- (v) fact round trip -------------------------------------------------------
 
+// genAnnotations fills a PackageAnnotations value through reflection: every
+// exported field of every annotation struct - also those promoted through an
+// embedded struct - gets a generated value, whatever the layout of the structs
+// is (a refactoring of the fact types must not need a change here: it must
+// survive the round trip).
 func genAnnotations(rt *rapid.T) annotations.PackageAnnotations {
-	name := rapid.StringMatching(`[A-Za-z_][A-Za-z0-9_]{0,12}`)
-	path := rapid.SampledFrom([]string{"", "a", "github.com/some-org/some.repo/v2/pkg", "gopkg.in/yaml.v3", "a.b-c/d_e", "vf.test/m/n/sub"})
-	pos := rapid.Custom(func(rt *rapid.T) token.Pos { return token.Pos(rapid.IntRange(0, 1<<30).Draw(rt, "pos")) })
 	var pa annotations.PackageAnnotations
-	for i, n := 0, rapid.IntRange(0, 4).Draw(rt, "nImpl"); i < n; i++ {
-		pa.ImplementsAnnotations = append(pa.ImplementsAnnotations, annotations.ImplementsAnnotation{
-			OnType: name.Draw(rt, "t"), OnTypePos: pos.Draw(rt, "p"), InterfaceName: name.Draw(rt, "i"), PackageName: name.Draw(rt, "pn"),
-			IsPointer: rapid.Bool().Draw(rt, "ptr"), PackageFullPath: path.Draw(rt, "fp"), PackageNotFound: rapid.Bool().Draw(rt, "nf")})
-	}
-	for i, n := 0, rapid.IntRange(0, 4).Draw(rt, "nCtor"); i < n; i++ {
-		var names []string
-		for j, k := 0, rapid.IntRange(0, 40).Draw(rt, "nNames"); j < k; j++ {
-			names = append(names, name.Draw(rt, "cn"))
-		}
-		pa.ConstructorAnnotations = append(pa.ConstructorAnnotations, annotations.ConstructorAnnotation{OnType: name.Draw(rt, "t"), OnTypePos: pos.Draw(rt, "p"), ConstructorNames: names})
-	}
-	for i, n := 0, rapid.IntRange(0, 4).Draw(rt, "nImm"); i < n; i++ {
-		pa.ImmutableAnnotations = append(pa.ImmutableAnnotations, annotations.ImmutableAnnotation{OnType: name.Draw(rt, "t"), OnTypePos: pos.Draw(rt, "p")})
-	}
-	for i, n := 0, rapid.IntRange(0, 4).Draw(rt, "nTO"); i < n; i++ {
-		pa.TestonlyAnnotations = append(pa.TestonlyAnnotations, annotations.TestOnlyAnnotation{Kind: annotations.TestOnlyKind(rapid.IntRange(0, 2).Draw(rt, "k")), ObjectName: name.Draw(rt, "o"), Pos: pos.Draw(rt, "p"), ReceiverType: name.Draw(rt, "r")})
-	}
-	for i, n := 0, rapid.IntRange(0, 4).Draw(rt, "nMut"); i < n; i++ {
-		pa.MutableAnnotations = append(pa.MutableAnnotations, annotations.MutableAnnotation{OnType: name.Draw(rt, "t"), FieldName: name.Draw(rt, "f"), Pos: pos.Draw(rt, "p")})
-	}
-	for i, n := 0, rapid.IntRange(0, 4).Draw(rt, "nPO"); i < n; i++ {
-		var allowed []string
-		for j, k := 0, rapid.IntRange(0, 30).Draw(rt, "nAllowed"); j < k; j++ {
-			allowed = append(allowed, path.Draw(rt, "ap"))
-		}
-		pa.PackageOnlyAnnotations = append(pa.PackageOnlyAnnotations, annotations.PackageOnlyAnnotation{Kind: annotations.TestOnlyKind(rapid.IntRange(0, 2).Draw(rt, "k")), ObjectName: name.Draw(rt, "o"), Pos: pos.Draw(rt, "p"), ReceiverType: name.Draw(rt, "r"), AllowedPackages: allowed})
-	}
+	fillRandom(rt, reflect.ValueOf(&pa).Elem(), "PackageAnnotations", 0)
 	return pa
+}
+
+func fillRandom(rt *rapid.T, v reflect.Value, name string, depth int) {
+	ident := rapid.StringMatching(`[A-Za-z_][A-Za-z0-9_]{0,12}`)
+	pathGen := rapid.SampledFrom([]string{"", "a", "github.com/some-org/some.repo/v2/pkg", "gopkg.in/yaml.v3", "a.b-c/d_e", "vf.test/m/n/sub"})
+	switch v.Kind() {
+	case reflect.Struct:
+		for i := 0; i < v.NumField(); i++ {
+			f := v.Type().Field(i)
+			if f.PkgPath != "" && !f.Anonymous {
+				continue // unexported, not embedded: never part of a fact
+			}
+			fillRandom(rt, v.Field(i), f.Name, depth+1)
+		}
+	case reflect.Slice:
+		if !v.CanSet() {
+			return
+		}
+		max := 4
+		if v.Type().Elem().Kind() == reflect.String {
+			max = 40
+		}
+		n := rapid.IntRange(0, max).Draw(rt, "n"+name)
+		sl := reflect.MakeSlice(v.Type(), n, n)
+		for i := 0; i < n; i++ {
+			fillRandom(rt, sl.Index(i), name, depth+1)
+		}
+		if n > 0 || rapid.Bool().Draw(rt, "emptyNotNil") {
+			v.Set(sl)
+		}
+	case reflect.String:
+		if !v.CanSet() {
+			return
+		}
+		if strings.Contains(name, "Package") || strings.Contains(name, "Path") {
+			v.SetString(pathGen.Draw(rt, "path"))
+		} else {
+			v.SetString(ident.Draw(rt, "ident"))
+		}
+	case reflect.Bool:
+		if v.CanSet() {
+			v.SetBool(rapid.Bool().Draw(rt, "bool"))
+		}
+	case reflect.Int, reflect.Int8, reflect.Int16, reflect.Int32, reflect.Int64:
+		if !v.CanSet() {
+			return
+		}
+		if strings.Contains(v.Type().Name(), "Kind") {
+			v.SetInt(int64(rapid.IntRange(0, 2).Draw(rt, "kind")))
+		} else {
+			v.SetInt(int64(rapid.IntRange(0, 1<<30).Draw(rt, "pos")))
+		}
+	case reflect.Uint, reflect.Uint8, reflect.Uint16, reflect.Uint32, reflect.Uint64:
+		if v.CanSet() {
+			v.SetUint(uint64(rapid.IntRange(0, 1<<20).Draw(rt, "u")))
+		}
+	}
+}
+
+// countElems counts the annotation entries of a PackageAnnotations value.
+func countElems(pa annotations.PackageAnnotations) int {
+	v := reflect.ValueOf(pa)
+	n := 0
+	for i := 0; i < v.NumField(); i++ {
+		if v.Field(i).Kind() == reflect.Slice {
+			n += v.Field(i).Len()
+		}
+	}
+	return n
 }
 
 // normEmpty maps nil slices to empty ones, recursively (gob does not keep the distinction).
@@ -520,9 +574,59 @@ func TestC06Facts(t *testing.T) {
 			}
 		}
 		b, _ := json.Marshal(v)
-		if len(v.ConstructorAnnotations)+len(v.PackageOnlyAnnotations)+len(v.MutableAnnotations) > 0 {
+		if countElems(v) > 0 {
 			ev.NonTrivial(id, ev.Hash("fact", string(b)))
 		}
 		ev.Class(id, "fact round trips (6 types each)")
 	})
 }
+
+const c06TwinSrc = `package m
+
+// @testonly
+func Helper() int { return 1 }
+
+// @testonly
+type Mock struct{ N int }
+
+// @immutable
+// @constructor NewBox
+type Box struct {
+	A int
+	// @mutable
+	B int
+}
+
+func NewBox() *Box { return &Box{} }
+
+// @packageonly m
+func Inner() {}
+
+// @testonly
+func (b *Box) Reset() {}
+`
+
+const c06TwinUse = `package twuse
+
+import (
+	ma "vf.test/m/twa/m"
+	mb "vf.test/m/twb/m"
+)
+
+func Use(x *ma.Box, y *mb.Box) {
+	_ = ma.Helper()
+	_ = mb.Helper()
+	_ = ma.Mock{}
+	_ = mb.Mock{}
+	x.A = 1
+	x.B = 2
+	y.A = 3
+	y.B = 4
+	ma.Inner()
+	mb.Inner()
+	x.Reset()
+	y.Reset()
+	_ = ma.Box{}
+	_ = new(mb.Box)
+}
+`
